@@ -202,6 +202,10 @@ def rand_expr(r, pool, w, depth, allow_reverse=True):
     """A sliceable expression of exact width w over the (name, width) pool; None if impossible."""
     cands = [n for n, sw in pool if sw == w]
     u = r.random()
+    if depth > 0 and r.random() < 0.06:
+        inner = rand_expr(r, pool, w, depth - 1, allow_reverse)     # a concatenation of ONE part (e.g. Concat(*taps) with one tap)
+        if inner is not None:
+            return ["cat", [inner]]
     if cands and w >= 2 and allow_reverse and r.random() < 0.12:
         # a slice as wide as its parent that is NOT the parent: full-width reversal, written in several styles
         a, b = r.choice([(None, None), (w - 1, None), (-1, None), (None, -w - 1), (-1, -w - 1)])
